@@ -164,8 +164,12 @@ class C20(flow.Spec):
             except (ValueError, OverflowError):
                 return False
             tol = Fraction(1, 10 ** 9) * (1 + scale)
-            for k in ("mean", "nvar", "min", "max"):
+            for k in ("mean", "nvar", "min", "max", "var0", "var1", "span"):
                 a = fi[k]
+                if a == "-" or fm[k] == "-":
+                    if a != fm[k]:
+                        return False
+                    continue
                 if a in ("nan", "inf", "-inf"):
                     return False
                 a = Fraction(float(a))
